@@ -69,7 +69,7 @@ class ASGIApp:
         else:
             static_file = get_static_file(scope['path'], self.static_files) \
                 if scope['type'] == 'http' and self.static_files else None
-            if static_file and os.path.exists(static_file['filename']):
+            if static_file and os.path.isfile(static_file['filename']):
                 await self.serve_static_file(static_file, receive, send)
             elif self.other_asgi_app is not None:
                 await self.other_asgi_app(scope, receive, send)
